@@ -14,6 +14,8 @@ pub(crate) fn resolve(mut story: ParsedStory) -> ParsedStory {
         return story;
     }
 
+    resolve_among_themselves(&mut story.consts);
+
     for global in &mut story.globals {
         resolve_expression(&mut global.initial_value, &story.consts);
     }
@@ -24,6 +26,45 @@ pub(crate) fn resolve(mut story: ParsedStory) -> ParsedStory {
         resolve_flow(flow, &consts);
     }
     story
+}
+
+/// A constant may be defined by other constants (`CONST B = A + 1`). Only constants
+/// whose own definition names no constant any more are substituted into the others, so
+/// the outcome does not depend on the order in which the map is walked, a chain of n
+/// constants is resolved after n rounds, and a cycle (which is never free of names)
+/// is left as it is.
+fn resolve_among_themselves(consts: &mut HashMap<String, Expression>) {
+    for _ in 0..consts.len() {
+        let closed: HashMap<String, Expression> = consts
+            .iter()
+            .filter(|(_, value)| !mentions_any(value, consts))
+            .map(|(name, value)| (name.clone(), value.clone()))
+            .collect();
+        let mut changed = false;
+        for value in consts.values_mut() {
+            if mentions_any(value, &closed) {
+                resolve_expression(value, &closed);
+                changed = true;
+            }
+        }
+        if !changed {
+            break;
+        }
+    }
+}
+
+fn mentions_any(expression: &Expression, consts: &HashMap<String, Expression>) -> bool {
+    match expression {
+        Expression::Variable(name) => consts.contains_key(name),
+        Expression::Binary { left, right, .. } => {
+            mentions_any(left, consts) || mentions_any(right, consts)
+        }
+        Expression::Negate(inner) | Expression::Not(inner) => mentions_any(inner, consts),
+        Expression::FunctionCall { args, .. } => {
+            args.iter().any(|argument| mentions_any(argument, consts))
+        }
+        _ => false,
+    }
 }
 
 fn resolve_flow(flow: &mut Flow, consts: &HashMap<String, Expression>) {
@@ -66,6 +107,26 @@ fn resolve_nodes(nodes: &mut [Node], consts: &HashMap<String, Expression>) {
             | Node::TunnelOnwardsWithTarget { args, .. } => {
                 for argument in args {
                     resolve_expression(argument, consts);
+                }
+            }
+            Node::Divert(divert) | Node::ThreadDivert(divert) => {
+                for argument in &mut divert.arguments {
+                    resolve_expression(argument, consts);
+                }
+            }
+            Node::Tag(tag) => {
+                for part in &mut tag.parts {
+                    match part {
+                        DynamicStringPart::Expression(expression) => {
+                            resolve_expression(expression, consts);
+                        }
+                        DynamicStringPart::Sequence(sequence) => {
+                            for branch in &mut sequence.branches {
+                                resolve_nodes(branch, consts);
+                            }
+                        }
+                        DynamicStringPart::Text(_) => {}
+                    }
                 }
             }
             Node::Sequence(sequence) => {
